@@ -15,6 +15,15 @@ claimed = {
    text="Encoder.Encode executed symbolically with every pixel byte symbolic: all images up to MAXWH x MAXWH for the six depth/colour types with stride slack and Encoder reuse, plus driver-chosen sizes whose rows/pixels land on every interesting offset of the 64 KiB buffer (chunk exactly full, one short, IEND fits exactly / separate by one); a PNG/zlib-stored/Adler walker is the oracle and the decoded samples are compared term-by-term with the input. CRC-32 and Adler-32 kernels are proved equal to bitwise/reference definitions for N symbolic bytes from arbitrary state.",
    note="In the framing harnesses crc32IEEE/updateAdler32 are uninterpreted functions (the walker applies the same functions, so placement/chaining is checked); their arithmetic is covered by the kernel lemmas (CRC: table entries all 256, streams of <=2 bytes; Adler: <=16/64 bytes from any state). The 5552-byte NMAX overflow argument and io.Writer failures are outside.",
    tech="symbolic execution of go/ssa + SMT with uninterpreted-function summaries, native replay"),
+
+ "C16": dict(cat="model_checking", design="DESIGN.md §4 C16",
+   text="flatecut.Cut and zlibcut.Cut executed symbolically on every valid DEFLATE stream that a bounded generator can emit (every sequence of up to BLOCKS stored / fixed-Huffman / dynamic-Huffman blocks with up to TOKENS literal or length-distance tokens each; all literal values, extra bits, padding bits, stored data and the limit maxEncodedLen symbolic; the block/token shape case-split by the solver). An independent RFC 1951 reference decoder (also standing in for compress/flate inside the code under test) decodes the cut result; the assertions are encodedLen <= maxEncodedLen, result is complete valid DEFLATE/zlib, it decodes to exactly the first decodedLen bytes of the original output, everything is kept when the limit does not bind, the io.Writer receives the prefix, zlib header kept and Adler-32 of the prefix in place.",
+   note="Bounds: quick BLOCKS<=2,TOKENS<=1 and BLOCKS=1,TOKENS<=2 (+dynamic header), thorough up to 3 blocks / 3 tokens; length symbols drawn from {257,265,285}, distances <= 8; one concrete dynamic-Huffman header (from compress/flate) with symbolic body; arbitrary-byte streams of 3 bytes in the thorough tier. Trusted: the reference decoder/generator in harness/go/c16, the gossa encoder, z3. compress/flate itself is modelled by the reference decoder.",
+   tech="symbolic execution of go/ssa + SMT over generator-quantified valid streams, reference-decoder oracle, native replay"),
+ "C18": dict(cat="model_checking", design="DESIGN.md §4 C18",
+   text="Inductive unit lemmas of the real entropy coder from arbitrary symbolic state (div = round-to-nearest for every coefficient/factor; emitBits keeps the bit-accumulator invariant and byte-stuffs every 0xFF; emitHuffmanRun's output decodes, with canonical codes rebuilt from the DHT bytes the encoder itself writes, to the same (run, value) for every value and run) plus whole-file harnesses through the public API (Reset, AddN): sparse symbolic blocks are decoded by an independent baseline-JPEG reader and compared coefficient by coefficient with div(coef, q); headers, sampling factors, tables, unit counting, too-many / wrong-N / after-error call sequences.",
+   note="Bounds: blocks with symbolic DC and <= 2 symbolic AC positions from a list of zig-zag patterns (adjacent, run 15/16/17, >= 32, last); <= 2 units; three quantisation tables; image sizes symbolic in the unit-count harness only. Dense blocks, the DCT pair and 'no allocation' are outside. Trusted: the JPEG reader in harness/go/c18, gossa, z3.",
+   tech="symbolic execution of go/ssa + SMT, inductive step lemmas, reference entropy decoder oracle, native replay"),
 }
 na = {
 }
